@@ -56,3 +56,38 @@ Print Assumptions C11_forward_sort_is_code.
 Theorem C11_reverse_sort_is_code : forall a b, cmp_args G.gen_rev_lt a b = rev_lt a b.
 Proof. exact rev_lt_tie. Qed.
 Print Assumptions C11_reverse_sort_is_code.
+
+
+(* tie to the source, the scenario filter and the construction of the per-scenario connection set
+   (TransitData::getConnectionsForScenario, read AS IT IS NOW by tools/gen_scenario.py, gen/Scenario.v): the chain of
+   tests; `tripsEnabled[trip.uid] = enabled; if (enabled) cachedTrips.push_back(trip);`; the two loops that keep, in the order
+   of forwardConnections / reverseConnections, the connections whose trip the map admits; the ConnectionSet constructed from
+   those three vectors.  "Deleting the excluded trips" deletes exactly the trips on which the chain ends with
+   enabled = false, and Data.conn_set is what that code builds (trip uids distinct: getTrips() is a std::map) *)
+Require TrV.ScenCode TrV.gen.Scenario.
+From TrV Require Proofs.ScenarioTie.
+Module SCN.
+  Import TrV.ScenCode TrV.Proofs.ScenarioTie.
+  Theorem C11_scenario_filter_is_code : forall d s,
+    (forall t, trip_enabled d s t = run_filter GS.gen_scen_filter d s t) /\
+    d_trips (delete_excluded d s) = filter (run_filter GS.gen_scen_filter d s) (d_trips d).
+  Proof. intros d s. exact (conj (scen_filter_is_code d s) (delete_excluded_is_code d s)). Qed.
+  Print Assumptions C11_scenario_filter_is_code.
+  Theorem C11_connection_set_is_code : forall d s,
+    NoDup (map t_id (d_trips d)) -> conn_set d s = run_build gen_scen_code d s.
+  Proof. exact conn_set_is_code. Qed.
+  Print Assumptions C11_connection_set_is_code.
+  Theorem C11_connection_set_is_code_wf : forall d s,
+    wf_data_b d = true -> conn_set d s = run_build gen_scen_code d s.
+  Proof. intros d s H. exact (conn_set_is_code d s (wf_data_trip_ids d H)). Qed.
+  Print Assumptions C11_connection_set_is_code_wf.
+  (* the two copies of the chain (resets.cpp repeats it over the request's lists, with one more test on the never-filled
+     exceptServices): the same tests, and the same verdict on a scenario's lists *)
+  Theorem C11_two_filter_copies_agree :
+    (forallb (fun ft => existsb (ftest_eqb ft) GS.gen_reset_filter) GS.gen_scen_filter = true /\
+     forallb (fun ft => tests_except_services ft || existsb (ftest_eqb ft) GS.gen_scen_filter) GS.gen_reset_filter = true /\
+     length GS.gen_reset_filter = S (length GS.gen_scen_filter)) /\
+    forall d s t, run_filter_on GS.gen_reset_filter d (scen_lists s) t = run_filter GS.gen_scen_filter d s t.
+  Proof. exact (conj reset_filter_same_chain reset_filter_on_scenario). Qed.
+  Print Assumptions C11_two_filter_copies_agree.
+End SCN.
